@@ -39,7 +39,12 @@ def suite_getslice(ctx):
     for seg, size in cases:
         twod = (seg + size) % 3 == 0
         shape = (size, 4) if twod else (size,)
-        out = list(_get_slice(seg, shape))
+        try:
+            out = list(_get_slice(seg, shape))
+        except Exception as e:  # noqa: the helper must produce a cover for every size and segment count
+            ctx.fail("geometry._get_slice", f"raised {type(e).__name__}: {e} for {size} rows in {seg} segments", {"segments": seg, "shape": list(shape)}, None,
+                     tags={"cause": "raises"}, size=1)
+            continue
         if twod:
             if any(not (isinstance(o, tuple) and o[1] == slice(None)) for o in out):
                 ctx.fail("geometry._get_slice", "2-D segment does not keep all columns", [seg, shape], repr(out))
@@ -275,7 +280,66 @@ def suite_merge(ctx):
         ctx.count("merge.components.%d" % min(len(want), 4))
 
 
+def suite_merge_polygons(ctx):
+    """the polygon flavour (GetNonOverlapUnions on SphPolygon objects): the unions are the connected components of the true overlap
+    relation (decided independently by hemisphere clipping), for every input order; families at mid latitudes and across the antimeridian"""
+    import math
+
+    from pyresample.spherical import SphPolygon
+    from pyresample.spherical_utils import GetNonOverlapUnions
+    from . import c17
+    r = ctx.rng
+    centres = [("mid-lat", (0.4, 0.6)), ("antimeridian", (math.pi - 0.02, 0.3)), ("antimeridian-south", (-math.pi + 0.05, -0.5)), ("equator", (1.5, 0.02))]
+    done = 0
+    attempts = 0
+    want_n = 8 if ctx.quick else 48
+    while done < want_n and attempts < want_n * 30:
+        attempts += 1
+        place, (lon0, lat0) = centres[done % len(centres)]
+        size = r.choice([0.08, 0.15])
+        step = size * r.uniform(1.0, 1.5)
+        # a chain of three overlapping polygons along a parallel, plus one polygon well away from them
+        V = []
+        for k, off in enumerate((-step, 0.0, step, 5 * size + step)):
+            V.append(c17.make_polygon(r, "convex", r.randint(4, 6), size * (0.45 if k == 1 else 1.0), (lon0 + off / max(0.2, math.cos(lat0)), lat0 + (0.3 * size if k % 2 else 0.0))))
+        if done % 2 == 1:
+            # a large polygon with small ones inside / across its edge (around the antimeridian the small ones lie wholly on one side of 180)
+            big = r.uniform(0.16, 0.22)
+            V = [c17.make_polygon(r, "convex", r.randint(5, 7), big, (lon0, lat0)),
+                 c17.make_polygon(r, "convex", r.randint(4, 5), 0.035, (lon0 - big * r.uniform(0.35, 0.6) / max(0.2, math.cos(lat0)), lat0 + 0.02)),
+                 c17.make_polygon(r, "convex", r.randint(4, 5), 0.035, (lon0 + big * r.uniform(0.35, 0.6) / max(0.2, math.cos(lat0)), lat0 - 0.03)),
+                 c17.make_polygon(r, "convex", r.randint(4, 5), 0.05, (lon0 + 3.0 * big / max(0.2, math.cos(lat0)), lat0))]
+        if not all(c17.is_convex_cw(v) for v in V):
+            continue
+        n = len(V)
+        ov = [[i != j and c17.clip_area(V[i], V[j]) > 1e-7 for j in range(n)] for i in range(n)]
+        margin = min(c17.min_boundary_distance(V[i], V[j]) for i in range(n) for j in range(n) if i != j)
+        if margin < 1e-3 or any(ov[i][j] != ov[j][i] for i in range(n) for j in range(n)):
+            continue
+        want = _components([frozenset([i] + [j + 100 * 0 for j in range(n) if ov[i][j]]) for i in range(n)])
+        done += 1
+        orders = [tuple(range(n))] + [tuple(r.sample(range(n), n)) for _ in range(3)]
+        for order in orders:
+            polys = [SphPolygon(c17.v2ll(V[i]).copy()) for i in order]
+            inp = {"place": place, "order": list(order), "polygons_lonlat_rad": [c17.v2ll(V[i]).tolist() for i in order],
+                   "true_overlaps": [[int(order.index(i)), int(order.index(j))] for i in range(n) for j in range(i + 1, n) if ov[i][j]]}
+            try:
+                g = GetNonOverlapUnions(polys)
+                g.merge()
+                ids = [k if isinstance(k, tuple) else (k,) for k in g.get_ids()]
+            except Exception as e:  # noqa
+                ctx.fail("spherical_utils.GetNonOverlapUnions.merge", f"raised {type(e).__name__}: {str(e)[:150]}", inp, tags={"place": place}, size=n)
+                continue
+            back = sorted(tuple(sorted(order[i] for i in k)) for k in ids)
+            if back != want:
+                ctx.fail("spherical_utils.GetNonOverlapUnions.merge", f"polygons at {place}: the unions {back} are not the connected components {want} of the overlap relation",
+                         inp, {"got": back, "components": want}, tags={"place": place}, size=n)
+            ctx.case("merge-polygons", (place, order, float(V[0][0][0])), nontrivial=True, sample={"input": {"place": place, "order": list(order)}, "components": want})
+        ctx.count("merge.polygons." + place)
+
+
 def run(ctx):
+    suite_merge_polygons(ctx)
     suite_getslice(ctx)
     suite_enumchunks(ctx)
     suite_rowapp(ctx)
